@@ -249,7 +249,7 @@ func (s *memStream) Recv() (*pb.SessionRequest, error) {
 }
 func (s *memStream) Send(r *pb.SessionResponse) error { s.sent = append(s.sent, r); return nil }
 
-var words = []string{"a", "svc", "prod", "tenant", "é世", "A-1", "x y", "_", "IK", "0", "user@example.com", "p.q", "100%", "%s", "%d%"}
+var words = []string{"a", " a", "a ", "svc", "prod", "tenant", "é世", "A-1", "x y", "_", "IK", "0", "user@example.com", "p.q", "100%", "%s", "%d%"}
 
 func drawName(t *rapid.T, label string) string {
 	n := rapid.IntRange(1, 2).Draw(t, label+"N")
@@ -447,10 +447,20 @@ func TestTwoWayDifferential(t *testing.T) {
 			// system key and intermediate key between the SDK's look-up and the SDK's own insert (which is then
 			// refused: the SDK continues under the stored keys)
 			if !refFirst && rapid.Bool().Draw(t, "referenceWriterRaces") {
+				olderParent := rapid.Bool().Draw(t, "racerStillUsesOlderSK")
 				sdkMS = &racingMS{Metastore: c.ms, hook: func(id string) {
 					at := verifhook.Now().Unix()
 					sk, skRow := kit.RefNewSK(refKMSWrap, at)
 					_, ikRow, _ := kit.RefNewIK(sk, skID, at, at)
+					if olderParent {
+						// the racing writer still works under the previous system key: its intermediate key names
+						// that one as parent, while a newer system key is already in the table
+						skOld, skOldRow := kit.RefNewSK(refKMSWrap, at-100)
+						if err := c.put(skID, at-100, skOldRow); err != nil {
+							t.Fatalf("harness: racing reference write failed: %v", err)
+						}
+						_, ikRow, _ = kit.RefNewIK(skOld, skID, at-100, at)
+					}
 					if err := c.put(skID, at, skRow); err != nil {
 						t.Fatalf("harness: racing reference write failed: %v", err)
 					}
